@@ -18,13 +18,18 @@ working tree, with the scanners of tools/gen/resolvers.py (C13's extractor, impo
   * write_tool_calls_resolver: run_write hands `&args.path` itself to resolve_path and ToolRunner::run takes the
                     checkpoint (emit_checkpoint_events -> files_for_invocation -> hook.create) before ToolStarted and before the handler is looked up - folded into gen_cover_found
 
+  * gen_patch_cover / gen_patch_variants_ok / gen_patch_progs  apply_patch: Patch::affected_paths pushes `path` for AddFile and
+                    DeleteFile, `path` and `moved_to` for UpdateFile (per variant, in source order: fields 1 = path,
+                    2 = moved_to); enum PatchOp has exactly these three variants; the file-system programs of
+                    Workspace::apply_patch per header and of its undo (ids 40-43, 46 of resolvers.py): every call on a path
+                    derived from safe_join(path) / safe_join(moved_to)
   * gen_restore_order  inside the `if file.exists` block of rewind_to_checkpoint's restore loop: 1 read of the stored
                     copy, 2 comparison of its hash with the recorded sha256 (mismatch = error), 3 create_dir_all(parent),
                     4 write of the target, 9 any copy / link / rename; a leading 0 = create_checkpoint does not record
                     the hash of the bytes it stores
 
 and writes coq/Gen/AutoCover.v with the obligations  gen_cover_ok : cover_wf ... = true  and
-gen_store_ok : store_wf gen_restore_order = true  (Model/Checkpoint.v).
+gen_store_ok : store_wf gen_restore_order = true,  gen_patch_ok : patch_wf ... = true  (Model/Checkpoint.v).
 Pattern based, never guesses: what it does not recognise becomes 99 / false and the obligation fails.
 Usage: autocover.py --repo /repo --out coq/Gen"""
 import re, sys, os, argparse
@@ -153,6 +158,34 @@ def main():
     if cc is None or "letbytes=fs::read(&source)?;lethash=hash_bytes(&bytes);fs::write(&dest,&bytes)?;" not in R.squash(cc) or "sha256:Some(hash)," not in R.squash(cc):
         restore_order = [0] + restore_order
 
+    # --- apply_patch: what affected_paths hands to the checkpoint, per PatchOp variant
+    patch_rs = cut(rd("crates/rip-workspace/src/patch.rs"))
+    ap = R.fn_body(patch_rs, "affected_paths")
+    patch_cover = []
+    variants_ok = False
+    if ap is not None:
+        t = R.squash(ap)
+        arms = [(1, r"PatchOp::AddFile\{path,\.\.\}=>paths\.push\(path\.clone\(\)\),", [1]),
+                (2, r"PatchOp::DeleteFile\{path\}=>paths\.push\(path\.clone\(\)\),", [1]),
+                (3, r"PatchOp::UpdateFile\{path,moved_to,\.\.\}=>\{paths\.push\(path\.clone\(\)\);ifletSome\(moved_to\)=moved_to\{paths\.push\(moved_to\.clone\(\)\);\}\}", [1, 2]),
+                (3, r"PatchOp::UpdateFile\{path,\.\.\}=>paths\.push\(path\.clone\(\)\),", [1])]
+        found_arms = []
+        for code, pat, fields in arms:
+            m = re.search(pat, t)
+            if m:
+                found_arms.append((m.start(), code, fields))
+        found_arms.sort()
+        patch_cover = [(c, fl) for _, c, fl in found_arms]
+        if not re.search(r"formutop|foropin&self\.ops\{matchop\{", t):
+            patch_cover = [(0, [])] + patch_cover
+    me = re.search(r"pub\s+enum\s+PatchOp\s*\{", patch_rs)
+    if me:
+        body = patch_rs[me.end() - 1:R.block_at(patch_rs, me.end() - 1)]
+        names = re.findall(r"(?m)^\s{4}(\w+)\s*\{", body)
+        variants_ok = names == ["AddFile", "DeleteFile", "UpdateFile"]
+    all_progs, _ = R.tool_programs(rd, cut, ws)
+    patch_progs = sorted((i, pr) for i, pr in all_progs if i in (40, 41, 42, 43, 46))
+
     coq_list = lambda l: "[" + "; ".join(str(x) for x in l) + "]"
     coq_prog = lambda pr: "[" + "; ".join(f"({o}, {d})" for o, d in pr) + "]"
     out = []
@@ -167,6 +200,11 @@ def main():
     out.append(f"Definition gen_write_prog : list (N * N) := {coq_prog(prog)}.")
     out.append("Lemma gen_cover_ok : cover_wf gen_cover_found gen_tool_steps gen_auto_steps gen_tmp_kind gen_write_prog = true.")
     out.append("Proof. vm_compute. reflexivity. Qed.")
+    out.append(f"Definition gen_patch_variants_ok : bool := {'true' if variants_ok else 'false'}.")
+    out.append("Definition gen_patch_cover : list (N * list N) := [" + "; ".join(f"({c}, {coq_list(fl)})" for c, fl in patch_cover) + "].")
+    out.append("Definition gen_patch_progs : list (N * list (N * N)) := [" + "; ".join(f"({i}, {coq_prog(pr)})" for i, pr in patch_progs) + "].")
+    out.append("Lemma gen_patch_ok : patch_wf gen_patch_variants_ok gen_patch_cover gen_patch_progs = true.")
+    out.append("Proof. vm_compute. reflexivity. Qed.")
     out.append(f"Definition gen_restore_order : list N := {coq_list(restore_order)}.")
     out.append("Lemma gen_store_ok : store_wf gen_restore_order = true.")
     out.append("Proof. vm_compute. reflexivity. Qed.")
@@ -176,6 +214,7 @@ def main():
     print("tool steps:", tool_steps, "auto steps:", auto_steps, "tmp kind:", tmp_kind, "found:", found)
     print("write program:", prog)
     print("restore order:", restore_order)
+    print("patch cover:", patch_cover, "variants ok:", variants_ok, "patch programs:", patch_progs)
 
 
 if __name__ == "__main__":
